@@ -133,15 +133,27 @@ func (db *MemDB) StoreExternal(ctx context.Context, duty core.Duty, signedSet co
 
 	output := make(map[core.PubKey][]core.ParSignedData)
 
+	// A rejected entry must not prevent the other validators of the batch from being stored
+	// or from triggering aggregation: process the whole batch and return the first error last.
+	var firstErr error
+
 	for pubkey, sig := range signedSet {
 		subcommIdx, err := core.SyncSubcommitteeIndex(duty.Type, sig.SignedData)
 		if err != nil {
-			return err
+			if firstErr == nil {
+				firstErr = err
+			}
+
+			continue
 		}
 
 		sigs, ok, err := db.store(ctx, key{Duty: duty, PubKey: pubkey, SubcommIdx: subcommIdx}, sig, exempt)
 		if err != nil {
-			return err
+			if firstErr == nil {
+				firstErr = err
+			}
+
+			continue
 		} else if !ok {
 			log.Debug(ctx, "Ignoring duplicate partial signature")
 
@@ -151,8 +163,14 @@ func (db *MemDB) StoreExternal(ctx context.Context, duty core.Duty, signedSet co
 		// Check if sufficient matching partial signed data has been received.
 		psigs, ok, err := getThresholdMatching(duty.Type, sigs, db.threshold)
 		if err != nil {
-			return err
-		} else if !ok {
+			if firstErr == nil {
+				firstErr = err
+			}
+
+			continue
+		} else if !ok || !containsShare(psigs, sig.ShareIdx) {
+			// Only the share that completes its own matching set triggers aggregation,
+			// later shares (e.g. over a different root) must not trigger it again.
 			continue
 		}
 
@@ -160,7 +178,7 @@ func (db *MemDB) StoreExternal(ctx context.Context, duty core.Duty, signedSet co
 	}
 
 	if len(output) == 0 {
-		return nil
+		return firstErr
 	}
 
 	// Call the threshSubs (which includes SigAgg component)
@@ -171,7 +189,18 @@ func (db *MemDB) StoreExternal(ctx context.Context, duty core.Duty, signedSet co
 		}
 	}
 
-	return nil
+	return firstErr
+}
+
+// containsShare returns true if the partial signatures contain the share index.
+func containsShare(sigs []core.ParSignedData, shareIdx int) bool {
+	for _, sig := range sigs {
+		if sig.ShareIdx == shareIdx {
+			return true
+		}
+	}
+
+	return false
 }
 
 // Trim blocks until the context is closed, it deletes state for expired duties.
